@@ -946,6 +946,24 @@ func checkC17(w *World) {
 			})
 		}
 		w.check(P, "R17.2", "xmlns attributes are skipped and nothing else", attrBuilder.Pos(), skipEq && skipPrefix && other == 0, fmt.Sprintf("skips name == \"xmlns\": %v; names with prefix \"xmlns:\": %v; other name-based conditions: %d", skipEq, skipPrefix, other))
+		// universal form: whether an attribute is kept depends on nothing but its own name. Every branch of the
+		// builder is the loop bound, a test of a string against a constant, or the result of a string predicate;
+		// a branch on anything else (a set of names seen so far, a counter, the value) drops or duplicates
+		// attributes that the parse tree has.
+		var foreign []string
+		for _, g := range scan {
+			allInstrs(g, func(in ssa.Instruction) {
+				iff, ok := in.(*ssa.If)
+				if !ok {
+					return
+				}
+				if !nameOnlyCondition(iff.Cond, 0) {
+					foreign = append(foreign, w.pos(iff.Pos())+" in "+g.Name())
+				}
+			})
+		}
+		sort.Strings(foreign)
+		w.check(P, "R17.2", "an attribute is kept or skipped by its own name only", attrBuilder.Pos(), len(foreign) == 0, fmt.Sprintf("branches of the attribute builder that test something other than the loop bound or the attribute's name: %s", orElse(strings.Join(foreign, "; "), "none")))
 	}
 	w.floor(P, "R17.2", 4)
 
@@ -1273,4 +1291,85 @@ func constantInt(c *types.Const) (int64, bool) {
 		return 0, false
 	}
 	return i, true
+}
+
+// nameOnlyCondition: the condition is a loop bound (integer comparison), a comparison of strings or bytes of a string
+// with constants, a strings.* predicate, a package-local predicate over strings, or a boolean combination of those.
+func nameOnlyCondition(c ssa.Value, depth int) bool {
+	if depth > 6 {
+		return false
+	}
+	switch x := c.(type) {
+	case *ssa.Const:
+		return true
+	case *ssa.Phi:
+		for _, e := range x.Edges {
+			if !nameOnlyCondition(e, depth+1) {
+				return false
+			}
+		}
+		return true
+	case *ssa.UnOp:
+		if x.Op == token.NOT {
+			return nameOnlyCondition(x.X, depth+1)
+		}
+	case *ssa.BinOp:
+		switch x.Op {
+		case token.LSS, token.LEQ, token.GTR, token.GEQ:
+			// loop bounds and length tests: integers only, one side a length or a counter
+			if b, ok := x.X.Type().Underlying().(*types.Basic); ok && b.Info()&types.IsInteger != 0 {
+				return isLenOf(x.Y, nil) || isLenOf(x.X, nil) || ascendingCounter(x.X) || ascendingCounter(x.Y) || descendingCounter(x.X) || descendingCounter(x.Y)
+			}
+		case token.EQL, token.NEQ:
+			if isStringType(x.X.Type()) || isByteOrRune(x.X.Type()) {
+				_, cx := x.X.(*ssa.Const)
+				_, cy := x.Y.(*ssa.Const)
+				return cx || cy
+			}
+			if b, ok := x.X.Type().Underlying().(*types.Basic); ok && b.Info()&types.IsInteger != 0 {
+				// index results of string searches compared with constants (strings.Index(...) >= 0 is LSS/GEQ above)
+				_, cx := x.X.(*ssa.Const)
+				_, cy := x.Y.(*ssa.Const)
+				return (cx || cy) && (fromStringsCall(x.X) || fromStringsCall(x.Y) || isLenOf(x.X, nil) || isLenOf(x.Y, nil))
+			}
+		}
+	case *ssa.Call:
+		sc := staticCallee(x)
+		if sc == nil {
+			return false
+		}
+		if sc.Pkg != nil && sc.Pkg.Pkg.Path() == "strings" {
+			return true
+		}
+		if fnPkgKey(sc) == "parser" {
+			for _, p := range sc.Params {
+				if !isStringType(p.Type()) {
+					return false
+				}
+			}
+			return true
+		}
+	case *ssa.Extract:
+		// comma-ok of strings.Cut and friends
+		if call, ok := x.Tuple.(*ssa.Call); ok {
+			if sc := staticCallee(call); sc != nil && sc.Pkg != nil && sc.Pkg.Pkg.Path() == "strings" {
+				return true
+			}
+		}
+	}
+	return false
+}
+
+func fromStringsCall(v ssa.Value) bool {
+	if c, ok := v.(*ssa.Call); ok {
+		if sc := staticCallee(c); sc != nil && sc.Pkg != nil && sc.Pkg.Pkg.Path() == "strings" {
+			return true
+		}
+	}
+	return false
+}
+
+func isByteOrRune(t types.Type) bool {
+	b, ok := t.Underlying().(*types.Basic)
+	return ok && (b.Kind() == types.Uint8 || b.Kind() == types.Int32)
 }
